@@ -146,7 +146,7 @@ func propC26(e *Env) {
 			return
 		}
 	}
-	r := newRtRigStore(e, dir, store)
+	r := newRtRigStore(e, dir, store, swarmRtOpts(e)...)
 	if !r.quiesce() {
 		return
 	}
